@@ -172,6 +172,9 @@ func (server *GripServer) addVertex(ctx context.Context, elem *gripql.GraphEleme
 	}
 
 	vertex := elem.Vertex
+	if vertex == nil {
+		return nil, fmt.Errorf("vertex validation failed: no vertex in the request")
+	}
 	err = vertex.Validate()
 	if err != nil {
 		return nil, fmt.Errorf("vertex validation failed: %v", err)
@@ -203,6 +206,9 @@ func (server *GripServer) addEdge(ctx context.Context, elem *gripql.GraphElement
 	}
 
 	edge := elem.Edge
+	if edge == nil {
+		return nil, fmt.Errorf("edge validation failed: no edge in the request")
+	}
 	if edge.Gid == "" {
 		edge.Gid = util.UUID()
 	}
